@@ -126,7 +126,9 @@ pub fn ij_to_face(ij: IJ) -> Face {
 
 /// Convert longitude/latitude to spherical coordinates
 pub fn from_lon_lat(lonlat: LonLat) -> Spherical {
-    let longitude = lonlat.longitude();
+    // Whole turns are removed first (the remainder is exact), so that a longitude far outside
+    // [-180, 180] does not lose its low digits when the offset is added and the sum converted
+    let longitude = lonlat.longitude() % 360.0;
     let latitude = lonlat.latitude();
 
     let theta = deg_to_rad(Degrees::new_unchecked(longitude + LONGITUDE_OFFSET));
